@@ -666,8 +666,17 @@ func runC39(c *Ctx) {
 			if !isCall || !fact.Truth || cl.Common().StaticCallee() == nil || cl.Common().StaticCallee().Name() != "ValidPath" {
 				continue
 			}
-			if cl.Common().Args[0] == v { // the very value that is used, not a component of it
+			arg := cl.Common().Args[0]
+			if arg == v { // the very value that is used, not a component of it
 				return true
+			}
+			// two loads of one local variable (a variable whose address was taken, e.g. for Scan)
+			if u1, ok1 := arg.(*ssa.UnOp); ok1 {
+				if u2, ok2 := v.(*ssa.UnOp); ok2 && u1.X == u2.X {
+					if _, isAl := u1.X.(*ssa.Alloc); isAl {
+						return true
+					}
+				}
 			}
 		}
 		return false
@@ -826,7 +835,33 @@ func runC39(c *Ctx) {
 					continue
 				}
 				n++
-				if !validFact(sf, b, mu.Key) {
+				okKey := validFact(sf, b, mu.Key)
+				if !okKey {
+					// a join of parts that were each validated is itself valid
+					if cl, isCall := mu.Key.(*ssa.Call); isCall && cl.Common().StaticCallee() != nil && cl.Common().StaticCallee().Name() == "Join" && cl.Common().StaticCallee().Pkg != nil && cl.Common().StaticCallee().Pkg.Pkg.Path() == "path" {
+						if sl, isSl := cl.Common().Args[0].(*ssa.Slice); isSl {
+							if al, isAl := sl.X.(*ssa.Alloc); isAl {
+								all, parts := true, 0
+								for _, ref := range *al.Referrers() {
+									ia, isIA := ref.(*ssa.IndexAddr)
+									if !isIA {
+										continue
+									}
+									for _, r2 := range *ia.Referrers() {
+										if st, isSt := r2.(*ssa.Store); isSt {
+											parts++
+											if _, isC := st.Val.(*ssa.Const); !isC && !validFact(sf, b, st.Val) {
+												all = false
+											}
+										}
+									}
+								}
+								okKey = all && parts > 0
+							}
+						}
+					}
+				}
+				if !okKey {
 					why = "an archive entry is added to the in-memory source tree under a name that has not passed fs.ValidPath (a traversal name such as ../x would be served or crash the walk)"
 				}
 			}
